@@ -71,16 +71,16 @@ def build(rng, dtls):
     return op, buf, expect, kind, n
 
 
-def many_minimal(rng, dtls, n):
+def many_minimal(rng, dtls, n, empty_app=False):
     """n records of the smallest sizes in one buffer (as many as fit a 64 KiB datagram and more): all must come back"""
     w = core.Writer()
     vals = []
     for k in range(n):
-        ct = 20 if (k * 7 + n) % 3 else 21
-        body = b'\x01' if ct == 20 else bytes([1, k % 256])
+        ct = 23 if empty_app else (20 if (k * 7 + n) % 3 else 21)
+        body = b'' if ct == 23 else b'\x01' if ct == 20 else bytes([1, k % 256])
         ver, ep, sq = 0xfefd if dtls else 0x0303, k % 4, k
         w.raw(bytes([ct]) + ver.to_bytes(2, 'big') + ((ep.to_bytes(2, 'big') + sq.to_bytes(6, 'big')) if dtls else b'') + len(body).to_bytes(2, 'big') + body)
-        m = 'CCS' if ct == 20 else '(Alert 1 %d)' % (k % 256)
+        m = '(App +0)' if ct == 23 else 'CCS' if ct == 20 else '(Alert 1 %d)' % (k % 256)
         vals.append('(DPlain (DHdr %d %d %d %d %d) [(M 0 %s)])' % (ct, ver, ep, sq, len(body), m) if dtls else '(Plain (Hdr %d %d %d) [%s])' % (ct, ver, len(body), m))
     return ('dtls_records' if dtls else 'tls_many'), w.bytes(), 'ok 0 ' + core.lst(vals), 'none', n
 
@@ -92,6 +92,8 @@ def run(ctx):
     n = 12000 if ctx.thorough else 1500
     cases = [build(rng, dtls) for dtls in (False, True) for _ in range(n)]
     cases += [many_minimal(rng, dtls, k) for dtls in (False, True) for k in ((1000, 2621, 2622, 4681) if not ctx.thorough else (1000, 2048, 2621, 2622, 4096, 4681, 8192))]
+    # empty application-data records are the smallest TLS records (5 bytes): any count of them is a valid buffer
+    cases += [many_minimal(rng, False, k, empty_app=True) for k in (2, 6, 7, 8, 12, 13, 64, 100, 1000, 2622)]
     lines = ['%s %s' % (c[0], core.hexs(c[1])) for c in cases]
     single = [('dtls_record' if c[0] == 'dtls_records' else 'tls_plaintext') + ' ' + core.hexs(c[1]) for c in cases]
     alias = ['tls_parser ' + core.hexs(c[1]) for c in cases if c[0] == 'tls_many']
